@@ -56,10 +56,13 @@ func StripDomain(data []byte, domain string) (res []byte) {
 				res = append(res, byte(num))
 			}
 			data = data[4:]
-		} else {
+		} else if len(data) >= 2 {
 			// Add char normally
 			res = append(res, data[1])
 			data = data[2:]
+		} else {
+			// A lone backslash at the end (the domain was cut off in the middle of an escape) carries nothing
+			data = data[1:]
 		}
 	}
 
